@@ -187,7 +187,7 @@ func runL(pl LPlan) (res vfx.Result) {
 				// then let go. Virtual time cannot advance while goroutines wait on the mutex, so everything
 				// here is delivered without timers and paced by yielding.
 				hold := make(chan struct{})
-				p.Rec.HoldName, p.Rec.HoldEvent = "blocker", hold
+				p.Rec.Hold("blocker", hold)
 				go func() {
 					_, _ = p.PushPullTo(p.Obs, false, []wire.PushNodeState{{Name: "blocker", Addr: []byte{10, 0, 9, 9}, Port: 7946, Incarnation: 1, State: 0, Vsn: vsn}}, nil, false)
 				}()
@@ -198,7 +198,7 @@ func runL(pl LPlan) (res vfx.Result) {
 				if !parked {
 					// the schedule did not cooperate: fall back to the plain same-instant race below
 					close(hold)
-					p.Rec.HoldEvent = nil
+					p.Rec.Unhold()
 					labels["park-failed"] = true
 				}
 				if parked {
@@ -215,7 +215,7 @@ func runL(pl LPlan) (res vfx.Result) {
 						runtime.Gosched()
 					}
 					close(hold)
-					p.Rec.HoldEvent = nil
+					p.Rec.Unhold()
 					<-leaveDone
 					retAt := p.Net.Now()
 					labels["race-behind-held-lock:"+st.RaceKind] = true
